@@ -174,9 +174,13 @@ func c18pool(c *Ctx, fn *ssa.Function) {
 		facts an.Facts
 		want  int
 	}{
-		{"no-overloaded-node", lenZero(func(p string) bool { return strings.Contains(p, "classifyNodes(") && (strings.HasSuffix(p, "#1") || strings.HasSuffix(p, "#3")) }), 2},
+		{"no-overloaded-node", lenZero(func(p string) bool {
+			return strings.Contains(p, "classifyNodes(") && (strings.HasSuffix(p, "#1") || strings.HasSuffix(p, "#3"))
+		}), 2},
 		{"no-confirmed-anomaly", lenZero(func(p string) bool { return strings.HasPrefix(p, "loadaware.filterRealAbnormalNodes(") }), 2},
-		{"no-underused-node", lenZero(func(p string) bool { return strings.Contains(p, "classifyNodes(") && (strings.HasSuffix(p, "#0") || strings.HasSuffix(p, "#2") || strings.HasSuffix(p, "#4")) }), 3},
+		{"no-underused-node", lenZero(func(p string) bool {
+			return strings.Contains(p, "classifyNodes(") && (strings.HasSuffix(p, "#0") || strings.HasSuffix(p, "#2") || strings.HasSuffix(p, "#4"))
+		}), 3},
 	}
 	for _, e := range exits {
 		reach := an.Explore(fn, nil, e.facts, nil)
